@@ -136,7 +136,13 @@ def _build(cfg):
     if kind in ('BPSK', 'BPSK-base'):
         return fu.BPSK()
     if kind == 'QPSK':
-        return fu.QPSK()
+        m = fu.QPSK()
+        if cfg.get('set'):
+            # the sibling class inherits setPhaseOffset: re-configured QPSK
+            if cfg.get('warm'):
+                m.demodulate(m.modulate(np.arange(4)))
+            m.setPhaseOffset(_offset(cfg['off'], 4))
+        return m
     if kind == 'QAM':
         return fu.QAM(cfg['M'])
     if cfg.get('set'):        # history: construct, then setPhaseOffset
@@ -270,6 +276,10 @@ class Detect(Harness):
                      shape=[1]),
                 dict(kind='PSK', M=8, off=0.3, set=True, warm='twice',
                      shape=[1]),
+                dict(kind='QPSK', M=4, off='pi/M', set=True, shape=[1]),
+                dict(kind='QPSK', M=4, off=0.0, set=True, warm=True,
+                     shape=[1]),
+                dict(kind='QPSK', M=4, off=0.3, set=True, shape=[2]),
                 dict(kind='PSK', M=4, off=0.3, shape=[1, 2]),
                 dict(kind='PSK', M=8, off=0.3, shape=[2, 1]),
                 dict(kind='QAM', M=4, shape=[1]),
